@@ -407,7 +407,7 @@ func registerAll() {
 func TestPropInputs(t *testing.T) {
 	registerAll()
 	collected, collectedRenders = nil, nil
-	ev.Rapid(t, "inputs", ev.N(250, 2500), genCase, judged)
+	ev.Rapid(t, "inputs", ev.N(700, 2500), genCase, judged)
 	crossProcess(t, "inputs", collected, collectedRenders)
 }
 
